@@ -29,6 +29,8 @@ class IOSim:
 
     # attribute forwarding for anything else reader code may use
     def __getattr__(self, name):
+        if name == "on_open":
+            raise AttributeError(name)
         return getattr(self.real, name)
 
     def _yield(self, site):
@@ -47,7 +49,7 @@ class IOSim:
         if fire:
             kind = "EIO"
             code = errno.EIO
-            if point == "open":
+            if point == "open" and self.forced is None:
                 kind = ["EIO", "EMFILE", "ENOENT"][self.ctx.tape.draw(3, "io.fault.openkind")]
                 code = {"EIO": errno.EIO, "EMFILE": errno.EMFILE, "ENOENT": errno.ENOENT}[kind]
             self.ctx.fault(f"io_{point}_{kind}")
@@ -63,6 +65,9 @@ class IOSim:
         self._maybe_fault("open", name)
         fh = self.real.open(name, mode, **kwargs)
         self.nopen += 1
+        cb = getattr(self, "on_open", None)
+        if cb is not None:
+            cb()
         self.open_handles += 1
         if self.open_handles > 1:
             self.ctx.probe("two_handles_open_simultaneously")
